@@ -2,55 +2,159 @@
 (***************************************************************************)
 (* Several sessions sharing one KmipEngine (property C10).                 *)
 (*                                                                         *)
-(* The engine keeps the requester's identity and the protocol version in   *)
-(* fields of the shared engine object; process_request sets them and the   *)
-(* handlers read them.  Request processing is split where the code reads   *)
-(* or writes those fields or the store:                                    *)
-(*   Enter -> Acquire -> SetIdentity -> SetVersion -> Exec (one step per   *)
-(*   batch item: access decision under the shared identity, attribute      *)
-(*   rules under the shared version, store update) -> Release.             *)
-(* With LOCKED = TRUE (the re-entrant lock around process_request) steps   *)
-(* of different sessions cannot interleave between Acquire and Release.    *)
-(* Property: every item is evaluated under the identity and version of the *)
-(* session that sent it, and the final store is that of some serial order. *)
-(* Negative control LOCKED = FALSE: TLC finds an identity mix-up.          *)
+(* The engine object keeps per-request state in its own fields: the        *)
+(* requester's identity, the protocol version (and the attribute rules     *)
+(* derived from it), the ID placeholder and the database session.          *)
+(* process_request sets them and the handlers read them, so the steps of   *)
+(* two requests must not interleave.  One re-entrant lock around           *)
+(* process_request provides that (LOCKED).  Request processing is split    *)
+(* where the code reads or writes the shared fields or the store:          *)
+(*   Enter -> Acquire -> SetVersion -> SetIdentity (also resets the        *)
+(*   placeholder) -> one or two steps per batch item -> Release.           *)
+(*                                                                         *)
+(* A request is a sequence of items:                                       *)
+(*   "create"  generate key material (no shared state touched), then store *)
+(*             the object under the CURRENT identity, placeholder := uid   *)
+(*   "getph"   identifier-less Get: the placeholder's object, allowed only *)
+(*             to its owner (access decision under the CURRENT identity)   *)
+(*   "query"   answers with what the CURRENT protocol version supports     *)
+(*                                                                         *)
+(* Property (Linearizable): when all requests are answered, the responses  *)
+(* and the store are those of SOME serial order of the requests, each      *)
+(* evaluated under the identity and version of its own session.            *)
+(* OwnIdentity: every item was evaluated under its own session's identity  *)
+(* and version.                                                            *)
+(*                                                                         *)
+(* Negative controls (each a realistic way of weakening the lock):         *)
+(*   LOCKED = FALSE        no lock at all                                  *)
+(*   FASTPATH = TRUE       requests made of "query" items only skip the    *)
+(*                         lock, but still write the shared fields         *)
+(*   UNLOCK_IN_CREATE      the lock is dropped while key material is       *)
+(*                         generated and taken again afterwards            *)
+(*   TIMEOUT = TRUE        a bounded wait for the lock: when it runs out   *)
+(*                         the request proceeds without the lock           *)
 (***************************************************************************)
 EXTENDS Naturals, Sequences, FiniteSets, TLC
 
-CONSTANTS Sessions,     \* session -> [user, ver, nitems]
-          LOCKED
+CONSTANTS Sessions,          \* session -> [user, ver, items]
+          LOCKED, FASTPATH, UNLOCK_IN_CREATE, TIMEOUT
 
 S == DOMAIN Sessions
-VARIABLES pc, lock, curUser, curVer, left, evals
-vars == <<pc, lock, curUser, curVer, left, evals>>
+NoUid == 0
+Items(s) == Sessions[s].items
+QueryOnly(s) == \A i \in DOMAIN Items(s) : Items(s)[i] = "query"
 
-Init == /\ pc = [s \in S |-> "idle"] /\ lock = "free"
-        /\ curUser = "nobody" /\ curVer = 0
-        /\ left = [s \in S |-> Sessions[s].nitems]
-        /\ evals = {}
+VARIABLES pc,        \* per session: where it is
+          holds,     \* per session: does it hold the lock (a session may run unlocked in the negative controls)
+          lock,      \* "free" or the holder
+          curUser, curVer, ph,      \* shared transient fields of the engine object
+          store,     \* uid -> owner (the persistent objects)
+          seq,       \* AUTOINCREMENT high-water mark
+          k,         \* per session: index of the item being processed
+          res,       \* per session: results so far
+          evals      \* ghost: under which identity / version each item was evaluated
+vars == <<pc, holds, lock, curUser, curVer, ph, store, seq, k, res, evals>>
 
-Enter(s)   == pc[s] = "idle" /\ pc' = [pc EXCEPT ![s] = "wantlock"] /\ UNCHANGED <<lock, curUser, curVer, left, evals>>
-Acquire(s) == /\ pc[s] = "wantlock"
-              /\ (LOCKED => lock = "free")
-              /\ lock' = IF LOCKED THEN s ELSE lock
-              /\ pc' = [pc EXCEPT ![s] = "setid"] /\ UNCHANGED <<curUser, curVer, left, evals>>
-\* process_request: the version is set first, then (after the header checks) the identity
-SetVersion(s)  == pc[s] = "setid" /\ curVer' = Sessions[s].ver /\ pc' = [pc EXCEPT ![s] = "setuser"]
-                  /\ UNCHANGED <<lock, curUser, left, evals>>
-SetIdentity(s) == pc[s] = "setuser" /\ curUser' = Sessions[s].user /\ pc' = [pc EXCEPT ![s] = "exec"]
-                  /\ UNCHANGED <<lock, curVer, left, evals>>
-\* one batch item: decided under whatever the shared fields hold right now
-Exec(s) == /\ pc[s] = "exec" /\ left[s] > 0
-           /\ evals' = evals \cup {[session |-> s, user |-> curUser, ver |-> curVer]}
-           /\ left' = [left EXCEPT ![s] = @ - 1]
-           /\ UNCHANGED <<pc, lock, curUser, curVer>>
-Release(s) == /\ pc[s] = "exec" /\ left[s] = 0
-              /\ lock' = IF LOCKED THEN "free" ELSE lock
-              /\ pc' = [pc EXCEPT ![s] = "done"] /\ UNCHANGED <<curUser, curVer, left, evals>>
+Init == /\ pc = [s \in S |-> "idle"] /\ holds = [s \in S |-> FALSE] /\ lock = "free"
+        /\ curUser = "nobody" /\ curVer = 0 /\ ph = NoUid
+        /\ store = <<>> /\ seq = 0
+        /\ k = [s \in S |-> 1] /\ res = [s \in S |-> <<>>] /\ evals = {}
 
-Next == \E s \in S : Enter(s) \/ Acquire(s) \/ SetVersion(s) \/ SetIdentity(s) \/ Exec(s) \/ Release(s)
+Goto(s, l) == pc' = [pc EXCEPT ![s] = l]
+
+Enter(s) == pc[s] = "idle" /\ Goto(s, "wantlock")
+            /\ UNCHANGED <<holds, lock, curUser, curVer, ph, store, seq, k, res, evals>>
+
+\* with the lock: wait until it is free.  Unlocked variants pass without it.
+Acquire(s) ==
+    /\ pc[s] = "wantlock"
+    /\ IF ~LOCKED \/ (FASTPATH /\ QueryOnly(s))
+       THEN UNCHANGED <<lock, holds>>
+       ELSE IF lock = "free" THEN lock' = s /\ holds' = [holds EXCEPT ![s] = TRUE]
+       ELSE TIMEOUT /\ UNCHANGED <<lock, holds>>         \* the bounded wait ran out (only enabled when TIMEOUT)
+    /\ Goto(s, "setver")
+    /\ UNCHANGED <<curUser, curVer, ph, store, seq, k, res, evals>>
+
+\* process_request: the version first, then (after the header checks) the identity; the placeholder starts empty
+SetVersion(s)  == /\ pc[s] = "setver" /\ curVer' = Sessions[s].ver /\ Goto(s, "setuser")
+                  /\ UNCHANGED <<holds, lock, curUser, ph, store, seq, k, res, evals>>
+SetIdentity(s) == /\ pc[s] = "setuser" /\ curUser' = Sessions[s].user /\ ph' = NoUid /\ Goto(s, "item")
+                  /\ UNCHANGED <<holds, lock, curVer, store, seq, k, res, evals>>
+
+Seen(s) == evals' = evals \cup {[session |-> s, user |-> curUser, ver |-> curVer]}
+Answer(s, r) == res' = [res EXCEPT ![s] = Append(@, r)] /\ k' = [k EXCEPT ![s] = @ + 1]
+
+\* "create", first half: key generation touches nothing shared; some variants give the lock up meanwhile
+CreateGen(s) ==
+    /\ pc[s] = "item" /\ k[s] <= Len(Items(s)) /\ Items(s)[k[s]] = "create"
+    /\ IF UNLOCK_IN_CREATE /\ holds[s]
+       THEN lock' = "free" /\ holds' = [holds EXCEPT ![s] = FALSE] /\ Goto(s, "relock")
+       ELSE UNCHANGED <<lock, holds>> /\ Goto(s, "store")
+    /\ UNCHANGED <<curUser, curVer, ph, store, seq, k, res, evals>>
+Relock(s) ==
+    /\ pc[s] = "relock" /\ lock = "free"
+    /\ lock' = s /\ holds' = [holds EXCEPT ![s] = TRUE] /\ Goto(s, "store")
+    /\ UNCHANGED <<curUser, curVer, ph, store, seq, k, res, evals>>
+\* "create", second half: the object is stored under whatever identity the engine holds NOW
+CreateStore(s) ==
+    /\ pc[s] = "store"
+    /\ seq' = seq + 1
+    /\ store' = [u \in (DOMAIN store) \cup {seq + 1} |-> IF u = seq + 1 THEN curUser ELSE store[u]]
+    /\ ph' = seq + 1
+    /\ Answer(s, <<"created", seq + 1>>) /\ Seen(s) /\ Goto(s, "item")
+    /\ UNCHANGED <<holds, lock, curUser, curVer>>
+
+GetPh(s) ==
+    /\ pc[s] = "item" /\ k[s] <= Len(Items(s)) /\ Items(s)[k[s]] = "getph"
+    /\ Answer(s, IF ph # NoUid /\ ph \in DOMAIN store /\ store[ph] = curUser THEN <<"got", ph>> ELSE <<"denied", 0>>)
+    /\ Seen(s)
+    /\ UNCHANGED <<pc, holds, lock, curUser, curVer, ph, store, seq>>
+
+Query(s) ==
+    /\ pc[s] = "item" /\ k[s] <= Len(Items(s)) /\ Items(s)[k[s]] = "query"
+    /\ Answer(s, <<"ops-of", curVer>>) /\ Seen(s)
+    /\ UNCHANGED <<pc, holds, lock, curUser, curVer, ph, store, seq>>
+
+Release(s) ==
+    /\ pc[s] = "item" /\ k[s] > Len(Items(s))
+    /\ IF holds[s] THEN lock' = "free" /\ holds' = [holds EXCEPT ![s] = FALSE] ELSE UNCHANGED <<lock, holds>>
+    /\ Goto(s, "done")
+    /\ UNCHANGED <<curUser, curVer, ph, store, seq, k, res, evals>>
+
+Next == \E s \in S : Enter(s) \/ Acquire(s) \/ SetVersion(s) \/ SetIdentity(s) \/ CreateGen(s) \/ Relock(s)
+                     \/ CreateStore(s) \/ GetPh(s) \/ Query(s) \/ Release(s)
 Spec == Init /\ [][Next]_vars
 
+--------------------------------------------------------------------------
+(* the sequential engine: one request evaluated atomically *)
+
+RECURSIVE SerialItems(_, _, _, _, _, _)
+\* returns [store, seq, res]
+SerialItems(s, i, st, sq, p, acc) ==
+    IF i > Len(Items(s)) THEN [store |-> st, seq |-> sq, res |-> acc]
+    ELSE LET it == Items(s)[i] IN
+         IF it = "create"
+         THEN SerialItems(s, i + 1, [u \in (DOMAIN st) \cup {sq + 1} |-> IF u = sq + 1 THEN Sessions[s].user ELSE st[u]],
+                          sq + 1, sq + 1, Append(acc, <<"created", sq + 1>>))
+         ELSE IF it = "getph"
+         THEN SerialItems(s, i + 1, st, sq, p,
+                          Append(acc, IF p # NoUid /\ p \in DOMAIN st /\ st[p] = Sessions[s].user THEN <<"got", p>> ELSE <<"denied", 0>>))
+         ELSE SerialItems(s, i + 1, st, sq, p, Append(acc, <<"ops-of", Sessions[s].ver>>))
+
+RECURSIVE SerialRun(_, _, _, _, _)
+\* order: a sequence of sessions; returns [store, res : session -> results]
+SerialRun(order, i, st, sq, acc) ==
+    IF i > Len(order) THEN [store |-> st, res |-> acc]
+    ELSE LET r == SerialItems(order[i], 1, st, sq, NoUid, <<>>) IN
+         SerialRun(order, i + 1, r.store, r.seq, [acc EXCEPT ![order[i]] = r.res])
+
+Orders == {o \in [1..Cardinality(S) -> S] : \A i, j \in 1..Cardinality(S) : i # j => o[i] # o[j]}
+
+AllDone == \A s \in S : pc[s] = "done"
+Linearizable ==
+    AllDone => \E o \in Orders :
+                 LET r == SerialRun(o, 1, <<>>, 0, [s \in S |-> <<>>]) IN r.store = store /\ r.res = res
 OwnIdentity == \A e \in evals : e.user = Sessions[e.session].user /\ e.ver = Sessions[e.session].ver
-MutualExclusion == LOCKED => Cardinality({s \in S : pc[s] \in {"setid", "setuser", "exec"}}) <= 1
+MutualExclusion == LOCKED /\ ~FASTPATH /\ ~UNLOCK_IN_CREATE /\ ~TIMEOUT
+                   => Cardinality({s \in S : pc[s] \in {"setver", "setuser", "item", "store"}}) <= 1
 =============================================================================
